@@ -128,6 +128,13 @@ def labelOK (T : Tables) (l : List Nat) : Bool :=
 def StrStop (e : End) (st : Spec.TtlPrint.Style) (s rest : List Nat) : Prop :=
   st.long = true ∨ s ≠ [] ∨ (match rest with | [] => e = .eof | c :: _ => c ≠ st.delim)
 
+/-- What may follow the closing quote when the encoder wrote the empty string `""`: not another `"`
+    (it would open a long string), and not a reader error (the producer looks one rune ahead). -/
+def EmptyStrStop (e : End) (rest : List Nat) : Prop :=
+  match rest with
+  | [] => e = .eof
+  | c :: _ => c ≠ 0x22
+
 def LabelStop (T : Tables) (e : End) (rest : List Nat) : Prop :=
   match rest with
   | [] => e = .eof
